@@ -164,6 +164,12 @@ def configurations(seed):
         cfg.append(('sigext plugin per run ' + name, name, {}, 'run', b''))
     cfg.append(('sigext plugin global SIGN', 'SIGN', {}, 'global', b''))
     cfg.append(('sigext plugin global CHECK_SIG', 'CHECK_SIG', {}, 'global', b''))
+    # registering the same extension a second time does not make it run twice
+    cfg.append(('sigext plugin global-twice CHECK_SIG', 'CHECK_SIG', {}, 'global-twice', b''))
+    cfg.append(('sigext plugin global-twice GET_MESSAGE', 'GET_MESSAGE', {}, 'global-twice', b''))
+    # flag 10 governs CHECK_TEMPLATE only: with it off, the extensions still run before every other signature instruction
+    for nm in ('GET_MESSAGE', 'SIGN', 'CHECK_SIG', 'CHECK_SIG_VERIFY', 'CHECK_MULTISIG', 'TAPROOT_KEY'):
+        cfg.append(('sigext plugin + flag 10 off ' + nm, nm, {10: False}, 'run', b''))
     cfg.append(('sigext plugin + flag 10 off CHECK_TEMPLATE', 'CHECK_TEMPLATE', {10: False}, 'run', b''))
     cfg.append(('check_template plugin per run', 'CHECK_TEMPLATE_rev', {}, 'ct-run', b''))
     cfg.append(('check_template plugin global', 'CHECK_TEMPLATE_rev', {}, 'ct-global', b''))
@@ -206,13 +212,15 @@ def case_fn(ctx, case):
     contracts = dict(stepspace.CONTRACTS)
     plugins, counter, ct = {}, None, None
     glob = []
-    if mode in ('run', 'global'):
+    if mode in ('run', 'global', 'global-twice'):
         counter = Counter()
         if mode == 'run':
             plugins['signature_extensions'] = [counter]
         else:
             F.add_signature_extension(counter)
-            glob.append(lambda: F.remove_signature_extension(counter))
+            if mode == 'global-twice':
+                F.add_signature_extension(counter)
+            glob.append(lambda: F.reset_signature_extensions() if hasattr(F, 'reset_signature_extensions') else F.remove_signature_extension(counter))
     if mode in ('ct-run', 'ct-global'):
         ct = [ct_ref]
         if mode == 'ct-run':
